@@ -449,24 +449,24 @@ def judge(qn, cls, args, kwargs, *, mode="value", scale=1.0, want_repro=True):
         got = _flatten_onnx(got)
         diff = first_difference(got, want_np, scale, mode)
     if diff is None:
-        # the exporter declares output types/shapes from torch's meta values: do the same, then validate
+        # the exporter declares output types/shapes from torch's meta values: do the same, then validate (evidence only:
+        # the property is about what executing the graph gives, so a checker complaint is counted, never a violation)
+        seq_out = (len(flat) != len(want_t)) or any(isinstance(o.type, E.ir.SequenceType) for o in flat) or \
+            (stag.startswith("seq") and not isinstance(outs, (list, tuple)))
+        if seq_out:
+            return {"status": "ok", "events": ev}
         try:
             for o, t in zip(flat, want_t):
-                if isinstance(o.type, E.ir.SequenceType):
-                    continue
                 if o.dtype is None:
                     o.dtype = E.core.torch_dtype_to_onnx_dtype(t.dtype)
-                if stag.startswith("seq") and len(flat) == 1 and len(want_t) != 1:
-                    continue
                 o.shape = E.ir.Shape(list(t.shape))
-            if len(flat) == 1 and stag.startswith("seq") and len(want_t) != 1 and flat[0].type is None:
-                flat[0].type = E.ir.SequenceType(E.ir.TensorType(E.core.torch_dtype_to_onnx_dtype(want_t[0].dtype))) if want_t else None
             err = runner.checker(E.ir.to_proto(model), full=True)
         except Exception as e:  # pragma: no cover
             err = f"{type(e).__name__}: {e}"
         if err:
             hit("checker_rejects")
             return {"status": "ok", "events": ev, "checker": f"{qn} [{cls}]: {err[:240]}"}
+        hit("checker_accepts")
         return {"status": "ok", "events": ev}
     # --- external-oracle rule: the reference evaluator may dispute
     kind, text = diff
